@@ -1250,6 +1250,10 @@ def _functools(ip, what, args, kwargs, node):
 
 
 def value_method(ip, meth, sv, args, kwargs, node):
+    if meth == 'eq' and isinstance(sv, E) and sv.op == 'sig' and getattr(sv.args[0], 'alias', None) is not None:
+        # the target is a local that has been read through (its single definition was taken as an alias): a further
+        # assignment to it cannot be represented -- never drop it silently
+        raise AnalysisError('construct not understood: a second driver of %s, a combinational local that was read through' % sv.args[0].name)
     e = as_expr(ip, sv)
     if meth == 'eq':
         rhs = args[0] if args else kwargs.get('value')
